@@ -106,6 +106,9 @@ pub fn run_composite(rep: &mut Report, p: &Params, xs: &[In]) {
         if t == (2 * xs.len()) / 3 + 2 {
             comp.perturb(0);
         }
+        if t == xs.len() / 2 + 2 {
+            comp.perturb(2);
+        }
         let out = match comp.feed(x) {
             Ok(o) => o,
             Err(_) => return,
@@ -213,6 +216,10 @@ pub fn run_composite(rep: &mut Report, p: &Params, xs: &[In]) {
 }
 
 fn variant(kind: Kind, rng: &mut Rng) -> Params {
+    // one draw in twelve is the documented default configuration (which the wrapper builds through Default::default())
+    if rng.below(12) == 0 {
+        return kind.default_params();
+    }
     let mut p = Params::new1(kind, per(rng));
     match kind {
         Kind::Macd | Kind::Ppo => p.p = [per(rng), per(rng), per(rng).min(60)],
@@ -242,6 +249,16 @@ pub fn run(ctx: &Ctx) -> Report {
             let m = *rng.pick(&[1e-3, 1.0, 37.5, 1e6]);
             BandGen::new(BAND_REGIMES[(idx / 4) % BAND_REGIMES.len()], m, rng.u64()).take(len).iter().map(|x| In::S(*x)).collect()
         };
+        // finite prices just below overflow (one-signed, in [6.5e307, 8.5e307]) for the composites whose parts
+        // only difference and average them: the hand-wired EMA / TrueRange parts stay finite, so must the composite
+        let near_max = !bars && idx % 16 == 10;
+        let inputs: Vec<In> = if near_max {
+            rep.count("streams.near_f64_max");
+            let sign = if rng.chance(0.5) { -1.0 } else { 1.0 };
+            (0..len.min(500)).map(|i| In::S(sign * if i % 7 == 3 { 6.5e307 } else { 6.5e307 + 2e307 * rng.f() })).collect()
+        } else {
+            inputs
+        };
         let head: Vec<f64> = inputs.iter().take(16).flat_map(|x| match x {
             In::S(v) => vec![*v],
             In::B(b) => b.fields().to_vec(),
@@ -252,9 +269,17 @@ pub fn run(ctx: &Ctx) -> Report {
             }
             // PPO on mixed-sign streams is judged only where its slow EMA is away from zero
             // (condition number <= 1e6), like the property says
-            let p = variant(kind, &mut rng);
+            let mut p = variant(kind, &mut rng);
+            if near_max {
+                if !matches!(kind, Kind::Atr | Kind::Macd | Kind::Kc) {
+                    continue;
+                }
+                if p.k.abs() > 3.0 {
+                    p.k = 3.0;
+                }
+            }
             run_composite(rep, &p, &inputs);
-            if idx % 5 == 0 {
+            if idx % 5 == 0 && !near_max {
                 // the same stream in a tiny / huge price unit, and negated (spreads, de-meaned series)
                 let f = *rng.pick(&[1e-12, 1e9, -1.0, -1e-3]);
                 {
